@@ -521,7 +521,7 @@ class StmtMixin:
                     exit_states.append(s1)
                     continue
                 v0 = spec.variant(ctx.at(s1)) if spec.variant is not None else None
-                before = ctx.at(s1.fork()) if spec.iteration_checks is not None else None
+                before = ctx.at(st) if spec.iteration_checks is not None else None   # state at the loop head (guard runs on forks)
                 body_in = [(NORMAL, s1)]
                 cur_item = None
                 if kind == 'for':
